@@ -1,0 +1,153 @@
+//go:build verif
+
+// Contracts for GoVC (contract-based deductive verification, see /verif/DESIGN.md).
+// This file contains comments only: with or without the build tag the compiled
+// package is unchanged.
+
+package reflect
+
+// ---------------------------------------------------------------------------
+// wire atoms (big-endian writers) over abstract byte sequences
+
+//@ spec func W_u8(s BSeq, v Int) BSeq = snoc(s, v % 256)
+//@ spec func W_u16(s BSeq, v Int) BSeq = snoc(snoc(s, (v / 256) % 256), v % 256)
+//@ spec func W_u32(s BSeq, v Int) BSeq = snoc(snoc(snoc(snoc(s, (v / 16777216) % 256), (v / 65536) % 256), (v / 256) % 256), v % 256)
+//@ spec func W_u64(s BSeq, v Int) BSeq = snoc(snoc(snoc(snoc(snoc(snoc(snoc(snoc(s, (v / 72057594037927936) % 256), (v / 281474976710656) % 256), (v / 1099511627776) % 256), (v / 4294967296) % 256), (v / 16777216) % 256), (v / 65536) % 256), (v / 256) % 256), v % 256)
+
+//@ func appendUint16(b []byte, v uint16) (r []byte)
+//@   abstract b, r
+//@   ensures r == W_u16(b, v)
+
+//@ func appendUint32(b []byte, v uint32) (r []byte)
+//@   abstract b, r
+//@   ensures r == W_u32(b, v)
+
+//@ func appendUint64(b []byte, v uint64) (r []byte)
+//@   abstract b, r
+//@   ensures r == W_u64(b, v)
+
+// ---------------------------------------------------------------------------
+// span.go
+
+//@ spec func spanInv(s *span) bool = 0 <= s.p && s.p <= s.n && 0 < s.n && s.n <= MAXOBJ + 8 && s.b != nil && s.b + s.n <= $brk
+
+//@ func (s *span) init()
+//@   requires s != nil
+//@   modifies s.p, s.b, s.n, $brk
+//@   ensures spanInv(s) && s.p == 0 && s.n == defaultDecoderMemSize && old($brk) <= s.b
+
+//@ func (s *span) Malloc(n int, align int) (ret unsafe.Pointer)
+//@   requires s != nil && spanInv(s) && 0 <= n && n <= MAXOBJ
+//@   requires align == 1 || align == 2 || align == 4 || align == 8
+//@   modifies s.p, s.b, s.n, $brk
+//@   ensures spanInv(s)
+//@   ensures aligned: ret % align == 0
+//@   ensures inblock: s.b <= ret && ret + n <= s.b + s.p
+//@   ensures bump: s.b == old(s.b) ==> old(s.b) + old(s.p) <= ret && s.n == old(s.n)
+//@   ensures freshblock: s.b != old(s.b) ==> old($brk) <= s.b
+//@   ensures ret != nil && old($brk) <= $brk
+
+// ---------------------------------------------------------------------------
+// unknownfields.go : index of skipped (unknown) fields, an abstract list of (off, sz)
+
+//@ func (p *unknownFields) Reset()
+//@   requires p != nil
+//@   modifies p.sz, p.offs
+//@   ensures p.sz == 0 && len(p.offs) == 0
+
+//@ func (p *unknownFields) Add(off int, sz int)
+//@   requires p != nil && 0 <= sz && sz <= MAXOBJ && 0 <= p.sz && p.sz <= MAXOBJ
+//@   modifies p.sz, p.offs, "H.unknownFieldIdx.off", "H.unknownFieldIdx.sz", $brk
+//@   ensures p.sz == old(p.sz) + sz
+//@   ensures len(p.offs) == old(len(p.offs)) + 1
+//@   ensures last: p.offs[len(p.offs)-1].off == off && p.offs[len(p.offs)-1].sz == sz
+//@   ensures prefix: forall k int :: 0 <= k && k < old(len(p.offs)) ==> p.offs[k].off == old(p.offs[k].off) && p.offs[k].sz == old(p.offs[k].sz)
+
+//@ func (p *unknownFields) Size() (r int)
+//@   requires p != nil
+//@   modifies nothing
+//@   ensures r == p.sz
+
+// ---------------------------------------------------------------------------
+// desc.go
+
+//@ func (d *structDesc) GetField(fid uint16) (f *tField)
+//@   requires wfSD(d)
+//@   modifies nothing
+//@   ensures (fid > d.maxID || d.fieldIdx[fid] < 0) ==> f == nil
+//@   ensures !(fid > d.maxID || d.fieldIdx[fid] < 0) ==> f == d.fields[d.fieldIdx[fid]] && f != nil && f.ID == fid && wfF(f)
+
+// ---------------------------------------------------------------------------
+// descriptor well-formedness (what the constructors of desc.go / ttype.go establish)
+//
+// MAXELEM bounds the in-memory size of one element / struct (A-SIZE): it keeps
+// count*size products inside int64 together with len(input) <= MAXOBJ.
+
+//@ const MAXELEM = 65536
+
+//@ spec uf func wfT(t *tType) bool
+//@ spec uf func wfSD(sd *structDesc) bool
+//@ spec uf func wfF(f *tField) bool
+
+//@ spec func isAlign(a Int) bool = a == 1 || a == 2 || a == 4 || a == 8
+//@ spec func validT(x Int) bool = x == tBOOL || x == tBYTE || x == tDOUBLE || x == tI16 || x == tI32 || x == tI64 || x == tSTRING || x == tSTRUCT || x == tMAP || x == tSET || x == tLIST || x == tENUM
+
+//@ axiom wfT_base: forall t *tType :: {wfT(t)} wfT(t) ==> t != nil && validT(t.T) && t.WT == (t.T == tENUM ? tI32 : t.T)
+//@     && t.FixedSize == typeToSize[t.T] && 0 <= t.Size && t.Size <= MAXELEM && isAlign(t.Align)
+//@     && t.SimpleType == simpleTypes[t.T]
+//@     && (t.IsPointer ==> t.Size == 8 && t.Align == 8 && t.MallocAbiType != 0)
+//@     && (t.IsPointer <==> t.Tag == defs.T_pointer)
+//@     && (t.T == tMAP ==> t.MapTmpVarsPool != nil && !t.IsPointer)
+//@     && ((t.T == tLIST || t.T == tSET) ==> !t.IsPointer)
+//@     && ((t.T == tSTRING && !t.IsPointer) ==> (t.Tag == defs.T_string || t.Tag == defs.T_binary))
+
+//@ axiom wfT_V: forall t *tType :: {wfT(t), t.V} wfT(t) && (t.IsPointer || t.T == tMAP || t.T == tLIST || t.T == tSET) ==> t.V != nil && wfT(t.V)
+//@     && (t.IsPointer ==> !t.V.IsPointer && t.T == t.V.T && t.WT == t.V.WT && t.FixedSize == t.V.FixedSize && t.V.T != tMAP && t.V.T != tLIST && t.V.T != tSET)
+
+//@ axiom wfT_K: forall t *tType :: {wfT(t), t.K} wfT(t) && t.T == tMAP ==> t.K != nil && wfT(t.K)
+
+//@ axiom wfT_Sd: forall t *tType :: {wfT(t), t.Sd} wfT(t) && t.T == tSTRUCT ==> t.Sd != nil && wfSD(t.Sd)
+
+//@ axiom wfSD_base: forall sd *structDesc :: {wfSD(sd)} wfSD(sd) ==> sd != nil && len(sd.fieldIdx) == sd.maxID + 1 && sd.rt != nil
+//@     && (sd.hasInitFunc ==> sd.initFunc != nil) && sd.unknownFieldsOffset <= MAXELEM
+
+//@ axiom wfSD_idx: forall sd *structDesc, k int :: {wfSD(sd), sd.fieldIdx[k]} wfSD(sd) && 0 <= k && k < len(sd.fieldIdx)
+//@     ==> -1 <= sd.fieldIdx[k] && sd.fieldIdx[k] < len(sd.fields) && (sd.fieldIdx[k] >= 0 ==> sd.fields[sd.fieldIdx[k]].ID == k)
+
+//@ axiom wfSD_fields: forall sd *structDesc, i int :: {wfSD(sd), sd.fields[i]} wfSD(sd) && 0 <= i && i < len(sd.fields)
+//@     ==> sd.fields[i] != nil && wfF(sd.fields[i])
+
+//@ axiom wfSD_req: forall sd *structDesc, i int :: {wfSD(sd), sd.requiredFieldIDs[i]} wfSD(sd) && 0 <= i && i < len(sd.requiredFieldIDs)
+//@     ==> sd.requiredFieldIDs[i] <= sd.maxID && sd.fieldIdx[sd.requiredFieldIDs[i]] >= 0
+
+//@ axiom wfF_base: forall f *tField :: {wfF(f)} wfF(f) ==> f != nil && f.Type != nil && wfT(f.Type) && f.Offset <= MAXELEM
+//@     && (f.NoCopy ==> f.Type.WT == tSTRING)
+
+// ---------------------------------------------------------------------------
+// bitset.go : presence set for field ids 0..65535
+
+//@ spec func bit(s *bitset, i Int) bool = bvand64(s.data[i / 64], bvshl64(1, i % 64)) != 0
+
+//@ axiom bits_or: forall a Int, k Int, j Int :: {bvand64(bvor64(a, bvshl64(1, k)), bvshl64(1, j))} 0 <= a && a < 18446744073709551616 && 0 <= k && k < 64 && 0 <= j && j < 64
+//@     ==> ((bvand64(bvor64(a, bvshl64(1, k)), bvshl64(1, j)) != 0) <==> (k == j || bvand64(a, bvshl64(1, j)) != 0))
+//@   opt bv bits_or
+//@ axiom bits_andnot: forall a Int, k Int, j Int :: {bvand64(bvandnot64(a, bvshl64(1, k)), bvshl64(1, j))} 0 <= a && a < 18446744073709551616 && 0 <= k && k < 64 && 0 <= j && j < 64
+//@     ==> ((bvand64(bvandnot64(a, bvshl64(1, k)), bvshl64(1, j)) != 0) <==> (k != j && bvand64(a, bvshl64(1, j)) != 0))
+//@   opt bv bits_andnot
+
+//@ func (s *bitset) set(i uint16)
+//@   requires s != nil
+//@   modifies s.data
+//@   ensures bit(s, i)
+//@   ensures others: forall j uint16 :: j != i ==> (bit(s, j) <==> old(bit(s, j)))
+
+//@ func (s *bitset) unset(i uint16)
+//@   requires s != nil
+//@   modifies s.data
+//@   ensures !bit(s, i)
+//@   ensures others: forall j uint16 :: j != i ==> (bit(s, j) <==> old(bit(s, j)))
+
+//@ func (s *bitset) test(i uint16) (r bool)
+//@   requires s != nil
+//@   modifies nothing
+//@   ensures r == bit(s, i)
